@@ -62,6 +62,31 @@ func effect(c *ast.CallExpr) string {
 		args[i] = src(a)
 	}
 	a := strings.Join(args, ",")
+	// lib/file/container.go and the release of a handler that was never registered
+	switch fn {
+	case "closeIsolatedHandler":
+		return "release_isolated"
+	case "c.m[key].close":
+		return "h.close"
+	case "c.m[key].commit":
+		return "h.commit"
+	case "c.m[key].closeWithErrors":
+		return "h.closeWithErrors"
+	case "c.Remove":
+		return "container_remove"
+	case "c.Add":
+		return "container_add"
+	case "fn":
+		return "new_handler"
+	case "c.Close":
+		return "container_close(" + a + ")"
+	case "c.CloseWithErrors":
+		return "container_close_we(" + a + ")"
+	case "delete":
+		return "container_delete"
+	case "c.createHandler":
+		return "create_handler(" + args[len(args)-1] + ")"
+	}
 	switch fn {
 	case "file.Close":
 		return "close(" + a + ")"
@@ -112,7 +137,7 @@ func effect(c *ast.CallExpr) string {
 }
 
 var harmless = map[string]bool{
-	"VerifPoint": true, "file.VerifPoint": true, "fmt.Sprintf": true, "err.Error": true, "closeIsolatedHandler": true,
+	"VerifPoint": true, "file.VerifPoint": true, "fmt.Sprintf": true, "err.Error": true,
 	"append": true, "len": true, "make": true, "EncodeEndingLineBreak": true, "[]byte": true, "NewControlFile": true, "tx.LogNotice": true,
 	"tx.UncommittedViews.Unset": true, "tx.CachedViews.Get": true, "fileInfo.LineBreak.Value": true,
 	"fileInfo.IdentifiedPath": true, "fileInfo.ExportOptions": true, "ctx.Err": true, "cancel": true,
@@ -121,6 +146,7 @@ var harmless = map[string]bool{
 	"tx.UnlockStdin": true, "tx.UncommittedViews.UncommittedTempViews": true, "tx.UncommittedViews.UncommittedFiles": true,
 	"tx.UncommittedViews.Clean": true, "tx.ReleaseResources": true, "strings.Join": true, "scope.StoreTemporaryTable": true,
 	"filepath.Ext": true, "ConvertContextError": true, "NewCompositeError": true,
+	"strings.ToUpper": true, "h.Path": true, "errors.New": true, "NewForcedUnlockError": true,
 }
 
 // walk lists the effects of a statement list in source order; an `if` becomes if[cond]{…}else{…} markers,
@@ -249,6 +275,13 @@ func (w *walker) stmt(s ast.Stmt) {
 			w.exprEffects(r)
 		}
 		w.out = append(w.out, "return")
+	case *ast.AssignStmt:
+		w.exprEffects(s)
+		for _, l := range v.Lhs {
+			if src(l) == "c.m[key]" {
+				w.out = append(w.out, "container_store")
+			}
+		}
 	default:
 		w.exprEffects(s)
 	}
@@ -371,6 +404,15 @@ func main() {
 	closeFn := effectsOf(findFunc(hd, "Handler", "close"))
 	closeErr := effectsOf(findFunc(hd, "Handler", "closeWithErrors"))
 	txCommit := effectsOf(findFunc(tx, "Transaction", "Commit"))
+	ct := parse(filepath.Join(repo, "lib/file/container.go"))
+	type named struct {
+		name, doc string
+		fx        []string
+	}
+	var container []named
+	for _, n := range []string{"createHandler", "Close", "Commit", "CloseWithErrors", "CloseAll", "CloseAllWithErrors", "CreateHandlerForRead", "CreateHandlerForUpdate", "CreateHandlerForCreate", "CreateHandlerWithoutLock", "Add", "Remove"} {
+		container = append(container, named{"fxContainer" + strings.ToUpper(n[:1]) + n[1:], "effects of Container." + n, effectsOf(findFunc(ct, "Container", n))})
+	}
 
 	// ---- protocol flags (Model/Lock.lean) ----
 	createIdx := indexOf(lockFn, func(s string) bool { return strings.HasPrefix(s, "create_") }, 0)
@@ -423,6 +465,9 @@ func main() {
 	emit("fxHandlerClose", "effects of Handler.close (structured)", closeFn)
 	emit("fxHandlerCloseWithErrors", "effects of Handler.closeWithErrors (structured)", closeErr)
 	emit("fxTransactionCommit", "effects of Transaction.Commit (structured)", txCommit)
+	for _, c := range container {
+		emit(c.name, c.doc, c.fx)
+	}
 	emit("commitUpdateOps", "Handler.commit for a handler opened for update: the file-system operations in order", flat(upd))
 	emit("commitOtherOps", "Handler.commit for other handlers (created files, read handlers)", flat(oth))
 	emit("closeOps", "Handler.close: the file-system operations in order", flat(closeFn))
